@@ -95,7 +95,7 @@ def event_key(mode, row):
     return "router:%s:%s" % (mode, a)
 
 
-def validate_runs(chk, name, runs, mode, stats, chunk=400, max_workers=4):
+def validate_runs(chk, name, runs, mode, stats, chunk=400, max_workers=2):
     """Validate router runs with RouterTrace; every rejected run becomes a violation. Returns #lines."""
     chunks = [runs[i:i + chunk] for i in range(0, len(runs), chunk)]
     def mk(i, part):
